@@ -10,7 +10,8 @@ RULE = ("Ctx::generators for seeds '', short, 1 kB and counts 0..64 (quick) / 20
         "small sets where the `< 2` retry branch is reachable, 1100 (thorough 4200) generators on p=2039 against the hashlib reference: every list equals the Gallina derivation (SHA-512 over seed||'ggen'||index||count "
         "with pairs appended on retries, mod p, squared); battery: prefix stability, membership via decode, distinctness and "
         "difference from g at >= 62 bits, different seeds give different lists; ristretto: recomputed from SHAKE-256 via hashlib + "
-        "dalek from_uniform_bytes, distinct, decodable, non-identity")
+        "dalek from_uniform_bytes, distinct, decodable, non-identity"
+        " Added in session 3: call-history battery (growing/shrinking/repeated counts, alternating seeds) and 8 threads requesting a cold seed at once, both against fresh processes;")
 
 
 def ref_generators(ctx, n, seed):
